@@ -28,14 +28,14 @@ def _kpair(a, b):
     return 0.8 + 2.4 * h / 1000.0
 
 
-def kfun(a, b, r, r0=2.2, cutoff=None):
+def kfun(a, b, r, r0=2.2, cutoff=None, transverse=0.17):
     """Longitudinal and transverse spring constants; tapered so that they vanish continuously at the cutoff
     (a pair sitting exactly at the cutoff distance then contributes nothing whichever way round-off decides)."""
     base = _kpair(a, b)
     g = np.exp(-((r / r0) ** 2)) * 4.0
     if cutoff is not None:
         g = g * np.clip(1.0 - (r / cutoff) ** 2, 0.0, None) ** 2
-    return base * g, 0.17 * base * g
+    return base * g, transverse * base * g
 
 
 def image_vectors(L, cutoff):
@@ -45,8 +45,9 @@ def image_vectors(L, cutoff):
     return T @ L
 
 
-def pair_fc(cell, positions_frac, symbols, cutoff, r0=2.2):
-    """Full supercell FC (n,n,3,3): every periodic image within cutoff contributes; ASR on the diagonal."""
+def pair_fc(cell, positions_frac, symbols, cutoff, r0=2.2, transverse=0.17):
+    """Full supercell FC (n,n,3,3): every periodic image within cutoff contributes; ASR on the diagonal.
+    transverse=0 gives a pure central-force (bond-stretching) network: many force components are then exactly zero."""
     L = np.array(cell, float)
     x = np.array(positions_frac, float)
     n = len(x)
@@ -65,7 +66,7 @@ def pair_fc(cell, positions_frac, symbols, cutoff, r0=2.2):
                 continue
             dd = d[mj, j]
             rr = r[mj, j]
-            kl, kt = kfun(sp[i], sp[j], rr, r0, cutoff)
+            kl, kt = kfun(sp[i], sp[j], rr, r0, cutoff, transverse)
             u = dd / rr[:, None]
             uu = np.einsum("ta,tb->tab", u, u)
             fc[i, j] -= np.einsum("t,tab->ab", kl - kt, uu) + kt.sum() * eye
